@@ -60,7 +60,12 @@ class FileSystemArtifactStore(SerializedArtifactStore):
         return path.open(f'{mode}b')  # noqa: ASYNC101
 
     def _get_glob(self, node_id: NodeId) -> t.List[Path]:
-        return list(Path(self._ensure_dir()).glob(f'{node_id}.*'))
+        # The artifact of the node is exactly `<node_id>.<format>`. A glob pattern built from the node id would also
+        # match the artifacts of other nodes (`x.*` matches `x.y.pickle`) and treats `*`, `?`, `[` in ids as wildcards.
+        directory = self._ensure_dir()
+        paths = [directory / f'{node_id}.{fmt.value}' for fmt in DataFormat]
+
+        return [path for path in paths if path.is_file()]
 
     @dont_use_for_prod
     async def save(self, node_id: NodeId, data: NodeResultT, fmt: DataFormat = DataFormat.PICKLE) -> None:
